@@ -108,20 +108,20 @@ func hopByHopHeaderRemove(outreq, req *bfe_http.Request) {
 	// is modifying the same underlying map from req (shallow
 	// copied above) so we only copy it if necessary.
 	copiedHeaders := false
-	for _, h := range bfe_basic.HopHeaders {
-		hv := outreq.Header.Get(h)
-		if hv == "" {
-			continue
+	remove := func(h string) {
+		hv, ok := outreq.Header[h]
+		if !ok {
+			return
 		}
 
-		if h == "Te" && hv == "trailers" {
+		if h == "Te" && len(hv) == 1 && hv[0] == "trailers" {
 			// Issue 21096: tell backend applications that
 			// care about trailer support that we support
 			// trailers. (We do, but we don't go out of
 			// our way to advertise that unless the
 			// incoming client request thought it was
 			// worth mentioning)
-			continue
+			return
 		}
 
 		if !copiedHeaders {
@@ -130,6 +130,20 @@ func hopByHopHeaderRemove(outreq, req *bfe_http.Request) {
 			copiedHeaders = true
 		}
 		outreq.Header.Del(h)
+	}
+
+	// Remove the headers nominated by the "Connection" header
+	// (RFC 7230, section 6.1). req.Header is never modified here.
+	for _, f := range req.Header["Connection"] {
+		for _, h := range strings.Split(f, ",") {
+			if h = strings.TrimSpace(h); h != "" {
+				remove(bfe_http.CanonicalHeaderKey(h))
+			}
+		}
+	}
+
+	for _, h := range bfe_basic.HopHeaders {
+		remove(h)
 	}
 }
 
